@@ -209,7 +209,7 @@ func (p *HTTPProxy) ServeHTTP(w http.ResponseWriter, r *http.Request) {
 	//Add OpenTrace Headers to response
 	trace.InjectHeaders(span, r)
 
-	upgrade, accept := r.Header.Get("Upgrade"), r.Header.Get("Accept")
+	accept := r.Header.Get("Accept")
 
 	tr := p.Transport
 	if t.Transport != nil {
@@ -220,7 +220,7 @@ func (p *HTTPProxy) ServeHTTP(w http.ResponseWriter, r *http.Request) {
 
 	var h http.Handler
 	switch {
-	case upgrade == "websocket" || upgrade == "Websocket":
+	case isWebsocket(r):
 		r.URL = targetURL
 		if targetURL.Scheme == "https" || targetURL.Scheme == "wss" {
 			h = newWSHandler(targetURL.Host, func(network, address string) (net.Conn, error) {
